@@ -47,3 +47,101 @@ pub fn domain() -> &'static Vec<char> {
         v
     })
 }
+
+// ------------------------------------------------------------------------------------
+// Catalogue of "tricky" strings, shared by every string-bearing check (names, labels,
+// strings, c-strings, keys, titles, messages). All are inside the lossless domain.
+
+fn lead_class(b: u8) -> u8 {
+    match b {
+        0x81 => 0,
+        0x82..=0x9E => 1,
+        0x9F => 2,
+        0xE0 => 3,
+        0xE1..=0xEE => 4,
+        0xEF..=0xF9 => 5,
+        0xFA => 6,
+        0xFB => 7,
+        _ => 8,
+    }
+}
+
+fn trail_class(b: u8) -> u8 {
+    match b {
+        0x40 => 0,
+        0x41..=0x5B => 1,
+        0x5C => 2, // ASCII backslash
+        0x5D..=0x6D => 3,
+        0x6E => 4, // ASCII 'n'
+        0x6F..=0x7E => 5,
+        0x80 => 6,
+        0x81..=0x9F => 7, // looks like a lead byte
+        0xA0..=0xDF => 8, // looks like half-width katakana / UTF-8 continuation
+        0xE0..=0xEF => 9,
+        _ => 10,
+    }
+}
+
+/// One lossless two-byte character per (lead-byte class × trail-byte class) that exists,
+/// plus the first and last half-width katakana: ≤ 101 characters.
+pub fn class_representatives() -> &'static Vec<char> {
+    static R: OnceLock<Vec<char>> = OnceLock::new();
+    R.get_or_init(|| {
+        let mut seen = std::collections::BTreeMap::new();
+        let mut buf = [0u8; 4];
+        for c in domain() {
+            let b = encode(c.encode_utf8(&mut buf)).unwrap();
+            if b.len() == 2 {
+                seen.entry((lead_class(b[0]), trail_class(b[1]))).or_insert(*c);
+            }
+        }
+        let mut v: Vec<char> = seen.values().cloned().collect();
+        v.extend(['｡', 'ﾟ']);
+        v
+    })
+}
+
+/// Strings that have broken decoders/encoders before: trail byte 0x5C ('\\'), trail byte
+/// 'n', half-width katakana pairs that are valid UTF-8, characters that are two bytes in
+/// UTF-8 *and* in Shift-JIS with ASCII after them, IBM-extension kanji (lead 0xFA..0xFC) at
+/// the end of a string, pairs whose code-point order and Shift-JIS byte order differ.
+pub fn tricky_strings() -> &'static Vec<String> {
+    static T: OnceLock<Vec<String>> = OnceLock::new();
+    T.get_or_init(|| {
+        let mut v: Vec<String> = [
+            "ソ", "ソn", "表示", "能\\n", "a\\b", "\\", "十ソ", "ﾂｱ", "ﾊｲ", "ｶﾞ", "ﾃｽﾄ.bin", "ｿ", "HP×2", "×", "×÷", "αβγx", "Жa", "§1", "°C", "±0",
+            "マーク", "マルス", "ー", "漢", "字", "Ａ", "あ", "增", "a增", "栁", "喆", "桒原", "髙", "﨑x", "纊", "黑", "Count", "Info", "Data", " ", "a b", ".", "..",
+        ]
+        .iter()
+        .map(|s| s.to_string())
+        .collect();
+        for c in class_representatives() {
+            v.push(c.to_string());
+            v.push(format!("{}n", c));
+            v.push(format!("a{}", c));
+        }
+        // adjacent representatives (a trail byte followed by a lead byte of every class)
+        let reps = class_representatives();
+        for w in reps.windows(2) {
+            v.push(format!("{}{}", w[0], w[1]));
+        }
+        v.retain(|s| lossless(s));
+        v.sort();
+        v.dedup();
+        v
+    })
+}
+
+/// Pairs (a, b) with a < b as Rust strings (code points) but a > b as Shift-JIS bytes.
+pub fn collation_inversions() -> Vec<(String, String)> {
+    let cands = ["ー", "ル", "あ", "漢", "字", "Ａ", "ア", "ｱ", "亜", "一", "龠", "弌", "×", "α", "Ж", "─", "増", "增"];
+    let mut v = Vec::new();
+    for a in cands {
+        for b in cands {
+            if a < b && lossless(a) && lossless(b) && encode(a).unwrap() > encode(b).unwrap() {
+                v.push((a.to_string(), b.to_string()));
+            }
+        }
+    }
+    v
+}
